@@ -60,11 +60,8 @@ def queries(tier):
         if w in seen:
             continue
         seen.add(w)
-        if "R(0,1)" in w.replace("QB", "qb") or "R(1,1)" in w:
-            w2 = w[:-2] if w.endswith(" Z") else w
-        else:
-            w2 = w
-        if "rep-" + skel.tag(w2) in REP_SLOW and tier == "quick":
+        w2 = w
+        if False and "rep-" + skel.tag(w2) in REP_SLOW and tier == "quick":
             continue   # symex does not finish within 60 s (receive followed by reply through the embedded context); thorough tier only
         qs.append(Query("rep-" + skel.tag(w2), "c04/rep.c", tus=TUS, env=ENV, defs={"SKEL": w2}, cdefs=["-DENV_MSG_CAP=48"], unwind=12, unwind_rules=KIT_RULES, timeout=300,
                         params={"protocol": "rep0", "skeleton": w2}))
